@@ -228,7 +228,31 @@ def run(R, tier, configs=("dflt",)):
                 true_lit = C_bytes(c_.args)
         v = ok_value(r)
         table[true_lit] = v.v if isinstance(v, K) else M.outcome(r)
-    R.check(good and table == {b"ON": True, b"OFF": False, None: "Err(IllegalParameterValue)"}, "R08.4", "bool:character", "ON -> true, OFF -> false (ASCII case-insensitive), other character data -> -224", "boolean keyword table is %s" % table, where=b.span)
+    want = {b"ON": True, b"OFF": False, None: "Err(IllegalParameterValue)"}
+    if not (good and table == want):
+        # the keywords are not an if-chain of comparisons (e.g. a table that is searched): decide the same table by folding the
+        # conversion on character data - the two keywords in every letter case, near misses and other texts
+        feng = C.fold_engine("dflt", "scpi")
+        import itertools
+        t2, good2 = {}, True
+        texts = {b"ON": [bytes(x) for x in itertools.product(b"Oo", b"Nn")], b"OFF": [bytes(x) for x in itertools.product(b"Oo", b"Ff", b"Ff")],
+                 None: [b"", b"O", b"N", b"OF", b"ONN", b"OFFF", b"ONE", b"NO", b"FFO", b"0N", b"ON1", b"OFF0", b"TRUE", b"FALSE", b"MAX", b"MIN", b"DEF", b"ONOFF", b"O_N", b"\xcfN"]}
+        for kw, tx in texts.items():
+            got = set()
+            for text in tx:
+                rs = C.fold_character(feng, b, text) or []
+                if len(rs) != 1:
+                    good2 = False
+                    continue
+                v = ok_value(rs[0])
+                got.add(v.v if isinstance(v, K) else M.outcome(rs[0]))
+            if len(got) == 1:
+                t2[kw] = got.pop()
+            else:
+                good2 = False
+        if (good2 and t2 == want) or set(table) <= {None}:
+            good, table = good2, t2
+    R.check(good and table == want, "R08.4", "bool:character", "ON -> true, OFF -> false (ASCII case-insensitive), other character data -> -224", "boolean keyword table is %s" % table, where=b.span)
     res = eng2.run(b, [M.token(eng2, "DecimalNumericProgramData")])
     good = bool(res)
     delegates = set()
